@@ -508,6 +508,23 @@ def plan(tier, seed, args):
                 tasks.append({"run": run, "seed": seed, "tier": tier, "mode": "enum", "file": s["file"], "fmt": s["fmt"],
                               "api": api, "cuts": [], "byte_cuts": offs_b[i:i + 400]})
                 run += 1
+    # (a'') announced sizes: every "N= <count>" of the formatted-checkpoint files (and the count tokens int_nudge finds in
+    # the other small files) becomes a smaller one - the arrays that follow then hold more, or another number of,
+    # elements than announced
+    for s in srcs_enum:
+        if s["size"] > (12_000 if tier == "quick" else 120_000) or s["file"] in SLOW:
+            continue
+        data = common.corpus_bytes(s["file"])
+        ncount = data.count(b"N=")
+        if not ncount:
+            continue
+        fl = [{"kind": "int_nudge", "i": i, "how": how, "aim": "count"} for i in range(min(ncount, 80))
+              for how in (("dec", "drop1of2") if tier == "quick" else ("dec", "minus2", "drop1of2", "drop1of3", "inc"))]
+        for api in s["apis"][:1]:
+            for i in range(0, len(fl), 10):
+                tasks.append({"run": run, "seed": seed, "tier": tier, "mode": "enum", "file": s["file"], "fmt": s["fmt"],
+                              "api": api, "cuts": [], "faults": fl[i:i + 10]})
+                run += 1
     if args.only == "enum":
         return tasks
     # (b) seeded storage-fault runs
@@ -642,6 +659,20 @@ def run_task(task):
             viols.extend(vs)
             _record(stats, trace, rec, data, data0, vs)
             dig.append((at, cut, type(rec["exc"]).__name__, str(rec["exc"])[:60], len(rec["frames"]), rec["steps"]))
+        for f in task.get("faults", []):
+            trace = {"source": src, "faults": [f], "name": name, "fmt": fmt, "api": api, "base_name": name, "base_fmt": fmt,
+                     "consume": ["exhaust", 0], "knobs": {}}
+            data = faults.apply(data0, f)
+            if data == data0:
+                continue
+            rec = run_load(name, fmt, api, data, ("exhaust", 0), None, budget)
+            n += 1
+            vs = judge(trace, rec)
+            viols.extend(vs)
+            _record(stats, trace, rec, data, data0, vs)
+            dig.append(("count", f["i"], f["how"], type(rec["exc"]).__name__, str(rec["exc"])[:60], len(rec["frames"]), rec["steps"]))
+        if task.get("faults"):
+            stats.add("count_enumerated_sources", f"{name}:{api}")
         stats.add("enumerated_sources", f"{name}:{api}")
         if task.get("byte_cuts"):
             stats.add("byte_enumerated_sources", f"{name}:{api}")
